@@ -196,6 +196,11 @@ fn hint_of<C: tracing_core::Collect>(c: &C) -> Option<u8> {
     c.max_level_hint().map(|h| h.into_level().map(|l| vp_rec::rank(&l)).unwrap_or(0))
 }
 fn build(case: &Case, tree: Option<&Node>, cwrap: CWrap) -> Run {
+    // a collector behind `Dispatch::from_static` is leaked and stays in the callsite registry for
+    // the life of the process (cases share the shard's process here): only the first few hundred
+    // such cases of a process really use it, later ones fall back to a plain Dispatch
+    static STATIC_LEFT: std::sync::atomic::AtomicIsize = std::sync::atomic::AtomicIsize::new(300);
+    let cwrap = if cwrap == CWrap::Static && STATIC_LEFT.fetch_sub(1, std::sync::atomic::Ordering::SeqCst) <= 0 { CWrap::Plain } else { cwrap };
     let mut logs = vec![];
     match case.base {
         Base::Registry => {
